@@ -211,5 +211,201 @@ def run_wire_points(args):
     return {'reproduced': [tuple(x) for x in got] != want, 'observed': [list(x) for x in got], 'expected': [list(x) for x in want]}
 
 
+# --------------------------------------------------------------------------------------------- DefWire.vias (location tracking, plain vias)
+# A via entry (type, orientation | None) sits at the location in force.  Ghost: VT(k) its type, PTRUE(k)/PAR(k) truthiness / value of its
+# orientation, CNTV(t, k) = number of via entries of type t among points[0..k).   ensures: vias[t] has CNTV(t, n) entries and the entry of
+# via k is (RX(k), RY(k), orientation or 'N') at position CNTV(VT(k), k) of vias[VT(k)] -- every via once, per type in file order, with '*'
+# resolved exactly as for the wire itself.  Via *arrays* (DO x BY y STEP ..: a list comprehension over two symbolic ranges) are outside the
+# subset: this configuration has none (isinstance(param, tuple) is False), their expansion is bounded evidence only.
+VT, PAR, PTRUE = z3.Function('VT', I, I), z3.Function('VPAR', I, I), z3.Function('VPTRUE', I, z3.BoolSort())
+CNTV = z3.Function('CNTV', I, I, I)
+NCONST = z3.Int('orient_N')
+AA = z3.ArraySort(I, I)
+
+
+class Param(Model):
+    def __init__(self, k):
+        self.k = k
+
+    def m_truth(self, ex, st, node):
+        return SBool(PTRUE(self.k))
+
+    def m_isinstance(self, ex, st, cls, node):
+        if cls is tuple:
+            ex.assumed.add('DefWire.vias: point lists without via arrays (DO .. BY .. STEP): the 2-D expansion is outside the subset (bounded part)')
+            return False
+        raise NotInSubset('isinstance of a via parameter against another class')
+
+
+class ViaPoint(Point):
+    def m_iter(self, ex, st, node):
+        ex.prove(st, 'requires:an entry is unpacked as (type, parameter) only after it was found to be a via entry', SBool(ISVIA(self.k)), node)
+        return [SInt(VT(self.k)), Param(self.k)]
+
+
+class ViaPoints(Points):
+    def m_getitem(self, ex, st, idx, node):
+        r = super().m_getitem(ex, st, idx, node)
+        if isinstance(r, Points):
+            return ViaPoints(r.n, r.ext, r.start)
+        return ViaPoint(r.k, r.ext)
+
+    def m_iter(self, ex, st, node):
+        n = z3.If(self.n - self.start > 0, self.n - self.start, 0)
+        return SymIter(SInt(n), lambda ex_, st_, k: ViaPoint(to_int(k) + self.start, self.ext))
+
+
+class ViaList(Model):
+    def __init__(self, t):
+        self.t = t
+
+    def m_getattr(self, ex, st, name, node):
+        if name != 'append':
+            raise NotInSubset(f'list.{name}')
+
+        def append(ex_, st_, args, kwargs, node_):
+            v = args[0]
+            if not isinstance(v, tuple) or len(v) != 3:
+                ex_.prove(st_, 'a listed via is (x, y, orientation)', False, node_)
+                return
+            o = v[2]
+            if isinstance(o, Param):
+                oe = PAR(o.k)
+            elif o == 'N':
+                oe = NCONST
+            else:
+                raise NotInSubset('orientation value')
+            t = self.t
+            n = st_.heap['VL'][t]
+            for key, e in (('VX', to_int(v[0])), ('VY', to_int(v[1])), ('VO', oe)):
+                st_.heap[key] = z3.Store(st_.heap[key], t, z3.Store(st_.heap[key][t], n, e))
+            st_.heap['VL'] = z3.Store(st_.heap['VL'], t, n + 1)
+        return Method(append)
+
+
+class VV(Model):
+    def m_getitem(self, ex, st, idx, node):
+        if not isinstance(idx, SInt):
+            raise NotInSubset('via table key')
+        return ViaList(to_int(idx))
+
+
+def via_prims(globs):
+    def mk(ex, st, args, kwargs, node):
+        if len(args) != 1 or args[0] is not list:
+            raise NotInSubset('defaultdict with a factory other than list')
+        st.heap['VL'] = z3.K(I, z3.IntVal(0))
+        for key in ('VX', 'VY', 'VO'):
+            st.heap[key] = z3.K(I, z3.K(I, z3.IntVal(0)))
+        return VV()
+    return {globs['defaultdict']: mk}
+
+
+def vias_config():
+    def setup(ex):
+        st = State()
+        n = ex.fv('n_points', 'int').e
+        k, k2, t = z3.Ints('k k2 t')
+        st.assume(SBool(z3.And(n >= 1, z3.Not(ISVIA(0)), z3.Not(XNONE(0)), z3.Not(YNONE(0)), RX(0) == PX(0), RY(0) == PY(0))))
+        st.assume(SBool(z3.ForAll([k], z3.Implies(k >= 1, z3.And(
+            RX(k) == z3.If(z3.Or(ISVIA(k), XNONE(k)), RX(k - 1), PX(k)), RY(k) == z3.If(z3.Or(ISVIA(k), YNONE(k)), RY(k - 1), PY(k)))))))
+        st.assume(SBool(z3.ForAll([t], CNTV(t, 0) == 0)))
+        st.assume(SBool(z3.ForAll([t, k], z3.Implies(k >= 0, CNTV(t, k + 1) == CNTV(t, k) + z3.If(z3.And(ISVIA(k), VT(k) == t), 1, 0)))))
+        st.assume(SBool(z3.ForAll([t, k, k2], z3.Implies(z3.And(0 <= k, k <= k2), CNTV(t, k) <= CNTV(t, k2)))))          # monotone (induction over the recurrence)
+        for key, srt in (('VL', AA), ('VX', z3.ArraySort(I, AA)), ('VY', z3.ArraySort(I, AA)), ('VO', z3.ArraySort(I, AA))):
+            st.heap[key] = z3.Const(f'{key}_garbage', srt)
+        st.env['self'] = SObj.new(st, 'self', points=ViaPoints(n, False))
+        ex.readonly.add(('self', 'points'))
+        ex.g = dict(n=n, ext=False)
+        return st
+
+    def locxy(ex, st):
+        loc = st.env.get('loc')
+        if isinstance(loc, Point):
+            return PX(loc.k), PY(loc.k)
+        if isinstance(loc, tuple) and len(loc) == 2:
+            return to_int(loc[0]), to_int(loc[1])
+        return None
+
+    def clauses(st, kk):
+        VL, VX, VY, VO = (st.heap[x] for x in ('VL', 'VX', 'VY', 'VO'))
+        j, t = z3.Ints('j t')
+        pos = CNTV(VT(j), j)
+        return [('V1:vias[t] has one entry per via of type t passed so far', z3.ForAll([t], VL[t] == CNTV(t, kk))),
+                ("V2:every via passed so far sits, in file order within its type, at the location in force with '*' resolved, with its orientation or 'N'",
+                 z3.ForAll([j], z3.Implies(z3.And(1 <= j, j < kk, ISVIA(j)), z3.And(VX[VT(j)][pos] == RX(j), VY[VT(j)][pos] == RY(j), VO[VT(j)][pos] == z3.If(PTRUE(j), PAR(j), NCONST)))))]
+
+    def havoc(ex, h):
+        h.env['loc'] = (ex.fv('loc_x', 'int'), ex.fv('loc_y', 'int'))
+
+    def inv(ex, st):
+        kk = to_int(st.env['__k0']) + 1
+        if not isinstance(st.env.get('vv'), VV):
+            yield 'vv is the result table', False
+            return
+        xy = locxy(ex, st)
+        if xy is None:
+            yield 'loc is a location (x, y)', False
+            return
+        yield 'L:loc is the location in force after the points passed so far', SBool(z3.And(xy[0] == RX(kk - 1), xy[1] == RY(kk - 1)))
+        for name, c in clauses(st, kk):
+            yield name, SBool(c)
+
+    def post(ex, st):
+        if not isinstance(st.ret, VV):
+            yield 'the result is the table built by the loop', False
+            return
+        n = ex.g['n']
+        for name, c in clauses(st, n):
+            yield name.split(':', 1)[1].replace('passed so far', 'of the wire'), SBool(c)
+        t = z3.Int('t')
+        ex.prove(st, 'mustfail:no via is ever listed', SBool(z3.ForAll([t], st.heap['VL'][t] == 0)), ex.fn, expect='refuted')
+
+    def replay(model, obl, ex):
+        ev = lambda e: model.eval(e, model_completion=True)
+        n = ev(ex.g['n']).as_long()
+        if not 1 <= n <= 40:
+            return None
+        pts = []
+        for k in range(n):
+            kk = z3.IntVal(k)
+            if z3.is_true(ev(ISVIA(kk))):
+                pts.append(['via', ev(VT(kk)).as_long(), bool(z3.is_true(ev(PTRUE(kk))))])
+                continue
+            pts.append([None if z3.is_true(ev(XNONE(kk))) else ev(PX(kk)).as_long(), None if z3.is_true(ev(YNONE(kk))) else ev(PY(kk)).as_long()])
+        return 'contracts.def_c:run_vias', {'points': pts}
+
+    def finite(ex):
+        return -1, 5, [ex.g['n'] <= 4]
+    contract = {'post': post, 'expr_fork': True, 'merge_ifs': True,
+                'loops': {0: {'inv': inv, 'havoc': havoc, 'modifies': ['VL', 'VX', 'VY', 'VO'], 'kinds': {'p': 'keep', 'vtype': 'keep', 'param': 'keep'}}}}
+    cfg = Config('any point list without via arrays', contract, setup, replay, finite=finite)
+    cfg.small = lambda ex: [ex.g['n'] <= 6]
+    return cfg
+
+
+def run_vias(args):
+    """the real DefWire.vias on a concrete point list against the statement of the contract (independent straight-line oracle)"""
+    from kyupy.def_file import DefWire
+    w = DefWire()
+    w.points = [((f'VIA{p[1]}', 'FS' if p[2] else None) if p[0] == 'via' else tuple(p)) for p in args['points']]
+    try:
+        got = {k: [tuple(x) for x in v] for k, v in w.vias.items() if v}
+    except Exception as e:  # noqa
+        return {'reproduced': True, 'observed': repr(e)}
+    want, cur = {}, None
+    for p in w.points:
+        if isinstance(p[0], str):
+            want.setdefault(p[0], []).append((cur[0], cur[1], p[1] or 'N'))
+        else:
+            cur = (p[0] if p[0] is not None else cur[0], p[1] if p[1] is not None else cur[1])
+    return {'reproduced': got != want, 'observed': {k: [list(x) for x in v] for k, v in got.items()}, 'expected': {k: [list(x) for x in v] for k, v in want.items()}}
+
+
+def targets_vias():
+    return [Target('def_file', 'DefWire.vias', [vias_config()], prims=via_prims, instantiate='fallback',
+                   note='point lists without via arrays; the DO .. BY .. STEP expansion (list comprehension over two ranges) is bounded only')]
+
+
 def targets():
     return [Target('def_file', 'DefWire.wire_points', [wire_points_config(False), wire_points_config(True)], instantiate='fallback')]
